@@ -62,6 +62,9 @@ CLASSES = {
 WRONG_SIZES = (0, 1, 2, 3)
 
 
+WHEEL = 'deuce_to_seven_wheel_is_a_straight'
+
+
 def _engine(cls, cards):
     """(accepted, index, label, low) through the public class."""
     try:
@@ -91,7 +94,7 @@ def _enum_task(args):
         )
     for combo in combos:
         cards = [deck[i] for i in combo]
-        ref = refeval.key(cname, [pairs[i] for i in combo])
+        ref = refeval.key_rules(cname, [pairs[i] for i in combo])
         eng = _engine(cls, cards)
         count += 1
         if (eng is None) != (ref is None):
@@ -112,10 +115,17 @@ def _enum_task(args):
                 problems.append(('equal_rank_differs', ''.join(map(repr, cards)),
                                  f'same engine index {idx} as {prev[1]} but'
                                  f' different rank under the rules'))
-        want = refeval.category(cname, [pairs[i] for i in combo])
-        if want is not None and label != want and len(problems) < 3:
-            problems.append(('label', ''.join(map(repr, cards)),
-                             f'label {label!r} != {want!r}'))
+        want = refeval.category_rules(cname, [pairs[i] for i in combo])
+        if want is not None and label != want:
+            if cname == 'StandardLowHand' and refeval.is_wheel(
+                    [pairs[i] for i in combo]):
+                if not any(p[0] == WHEEL for p in problems):
+                    problems.append((WHEEL, ''.join(map(repr, cards)),
+                                     f'label {label!r}, by the rule book'
+                                     f' {want!r}'))
+            elif len(problems) < 3:
+                problems.append(('label', ''.join(map(repr, cards)),
+                                 f'label {label!r} != {want!r}'))
     return cname, size, count, valid, idx_key, problems
 
 
@@ -170,6 +180,25 @@ def extra(tier, seed, stats):
                                f' {seen_keys[ref][0]}) are equal under the'
                                ' rules but not for the engine'))
             seen_keys[ref] = (idx, cards)
+        if cname == 'StandardLowHand':
+            # the wheel is judged on its own (listed finding W1), the rest of
+            # the order without it
+            from pokerkit import Card as _C
+            wheels = [it for it in items if refeval.is_wheel(
+                [refeval.rs(c) for c in _C.parse(it[1][1])])]
+            items = [it for it in items if it not in wheels]
+            for widx, (wkey, wcards) in wheels:
+                below = [k for i, (k, _) in items if i < widx]
+                above = [k for i, (k, _) in items if i > widx]
+                # low type: a greater index is a weaker hand
+                if any(k < wkey for k in below) or \
+                        any(k > wkey for k in above):
+                    viols.append(V(ID, WHEEL, cname,
+                                   f'{cname}: {wcards} is ranked as a'
+                                   ' straight (below pairs and trips); in'
+                                   ' deuce-to-seven the ace is only high'
+                                   ' and 5-4-3-2-A is the best ace-high'))
+                    break
         for (i1, (k1, c1)), (i2, (k2, c2)) in zip(items, items[1:]):
             # engine: higher index = greater entry; low types invert
             stronger_second = k2 > k1
@@ -379,7 +408,7 @@ def check(case, stats):
     out = []
     hands = []
     for cards in (case['a'], case['b']):
-        ref = refeval.key(cname, [(c[0], c[1]) for c in cards])
+        ref = refeval.key_rules(cname, [(c[0], c[1]) for c in cards])
         form = case.get('form')
         if any('?' in c for c in cards) and form == 'set':
             form = 'tuple'
@@ -432,7 +461,16 @@ def check(case, stats):
             and kb is not None:
         want = (ka < kb, ka <= kb, ka == kb, ka != kb, ka >= kb, ka > kb)
         got = (ha < hb, ha <= hb, ha == hb, ha != hb, ha >= hb, ha > hb)
-        if want != got:
+        wheel = cname == 'StandardLowHand' and (
+            refeval.is_wheel([(c[0], c[1]) for c in ca])
+            or refeval.is_wheel([(c[0], c[1]) for c in cb]))
+        if wheel:
+            stats.count('class:deuce_to_seven_wheel')
+        if want != got and wheel:
+            out.append(V(ID, WHEEL, cname,
+                         f'{cname}: {"".join(ca)} vs {"".join(cb)}:'
+                         f' (<,<=,==,!=,>=,>) engine {got} rule book {want}'))
+        elif want != got:
             out.append(V(ID, 'comparison', cname,
                          f'{cname}: {"".join(ca)} vs {"".join(cb)}:'
                          f' (<,<=,==,!=,>=,>) engine {got} rules {want}'))
@@ -441,8 +479,14 @@ def check(case, stats):
                          f'{cname}: equal hands {"".join(ca)} {"".join(cb)}'
                          ' hash differently'))
         for h, cards in ((ha, ca), (hb, cb)):
-            wl = refeval.category(cname, [(c[0], c[1]) for c in cards])
-            if wl is not None and h.entry.label.value != wl:
+            wl = refeval.category_rules(cname, [(c[0], c[1]) for c in cards])
+            if wl is not None and h.entry.label.value != wl and \
+                    cname == 'StandardLowHand' and refeval.is_wheel(
+                        [(c[0], c[1]) for c in cards]):
+                out.append(V(ID, WHEEL, cname,
+                             f'{cname}({"".join(cards)}) label'
+                             f' {h.entry.label.value!r}, rule book {wl!r}'))
+            elif wl is not None and h.entry.label.value != wl:
                 out.append(V(ID, 'label', cname,
                              f'{cname}({"".join(cards)}) label'
                              f' {h.entry.label.value!r} != {wl!r}'))
